@@ -8,7 +8,7 @@ Same compiler as driver_py (statements in continuation-passing style), in "funct
 import ast
 
 from .core import Unsupported, find_def
-from .driver_py import COQTY, MTr, V, dotted, opaque, prop_listcomp
+from .driver_py import COQTY, MTr, V, dotted, opaque, prop_listcomp, returned_value
 from .lazy import normalise
 
 OUTPUTS = ["GenStops.v"]
@@ -181,7 +181,7 @@ class STr(MTr):
 
 
 def stop_method(mod, src, cls, params, obj_is, fname):
-    fn = normalise(find_def(mod, "__call__", cls))
+    fn = normalise(find_def(mod, "__call__", cls), sums=False)
     argn = [a.arg for a in fn.args.args]
     if len(argn) != 2 or argn[0] != "self":
         raise Unsupported(f"{src}:{fn.lineno}: {cls}.__call__ signature changed: {argn}")
@@ -201,11 +201,10 @@ def translate(repo):
     tmod = ast.parse(open(f"{repo}/{TREE}").read())
     out.append(prop_listcomp(tmod, "DemeTree", "all_demes", TREE))
     # n_evaluations: sum(deme.n_evaluations for _, deme in self.all_demes)
-    fn = find_def(tmod, "n_evaluations", "DemeTree")
-    ok = (len(fn.body) == 1 and isinstance(fn.body[0], ast.Return) and isinstance(fn.body[0].value, ast.Call) and dotted(fn.body[0].value.func) == "sum"
-          and len(fn.body[0].value.args) == 1 and isinstance(fn.body[0].value.args[0], ast.GeneratorExp))
+    fn, rv = returned_value(tmod, "DemeTree", "n_evaluations", TREE)
+    ok = (isinstance(rv, ast.Call) and dotted(rv.func) == "sum" and len(rv.args) == 1 and not rv.keywords and isinstance(rv.args[0], ast.GeneratorExp))
     if ok:
-        g = fn.body[0].value.args[0]
+        g = rv.args[0]
         gen = g.generators[0]
         ok = (len(g.generators) == 1 and not gen.ifs and dotted(gen.iter) == "self.all_demes" and isinstance(gen.target, ast.Tuple) and len(gen.target.elts) == 2
               and isinstance(gen.target.elts[1], ast.Name) and dotted(g.elt) == gen.target.elts[1].id + ".n_evaluations")
